@@ -373,7 +373,11 @@ pub fn shim_effective() -> Result<(), String> {
     if r.exit != Exit::Code(0) || r.stdout != b"probe\n" {
         return Err(format!("probe run failed: {} stdout={:?} stderr={}", r.exit.show(), String::from_utf8_lossy(&r.stdout), String::from_utf8_lossy(&r.stderr)));
     }
-    if !r.trace.contains("G 16") || !r.trace.contains("W o 0 6 -> 2 short") {
+    // independent of how FML happens to chunk its output: entropy was served by the shim, at least one write on fd 1 was
+    // seen, and none of them moved more than the 2 bytes the plan allows
+    let served_entropy = r.trace.lines().any(|l| l.starts_with("G "));
+    let writes: Vec<i64> = r.trace.lines().filter(|l| l.starts_with("W o ")).filter_map(|l| l.split("-> ").nth(1).and_then(|x| x.split_whitespace().next()).and_then(|x| x.parse().ok())).collect();
+    if !served_entropy || writes.is_empty() || writes.iter().any(|n| *n > 2) {
         return Err(format!("shim not effective; trace was: {:?}", r.trace));
     }
     Ok(())
